@@ -71,7 +71,14 @@ class Resident:
                     rets = [r.value for r in ast.walk(d) if isinstance(r, ast.Return) and r.value is not None]
                     return bool(rets) and all(self._is_table_value(r) for r in rets)
             return False
-        return isinstance(v, ast.Attribute) and v.attr in TABLES and is_table_expr(v)
+        if isinstance(v, ast.Attribute) and v.attr in TABLES and is_table_expr(v):
+            return True
+        if isinstance(v, ast.Attribute):   # an index of an aliased table: `idx = table_alias.handle`
+            root = v
+            while isinstance(root, ast.Attribute):
+                root = root.value
+            return isinstance(root, ast.Name) and root.id in self.table_aliases
+        return False
 
     def is_table(self, e) -> bool:
         """e denotes an MDIB table or one of its indices (directly or through a local alias)."""
